@@ -64,6 +64,29 @@ def r1_loop(ck, cx, kind, cls, f, fps):
     return dels
 
 
+def r14_single_shot_skip_keeps_nothing(ck, cx, kind, cls, f, fps, rule='R14', why=''):
+    """A framer that handles at most ONE frame per call (no frame loop: the RTU framer) looks at its buffer again only when the
+    next read arrives.  If it skips a complete frame for a foreign unit by advancing past it, whatever arrived behind that frame in
+    the same read stays buffered unprocessed; the next read then triggers the processing of the OLD frame, and from there on every
+    request is answered one read late (with the response to the previous one).  Such a framer has to drop the remainder together
+    with the skipped frame, or loop."""
+    n = 0
+    for fp in fps:
+        if fp.unit_reject is None or (fp.exit and fp.exit[0] == 'exc'):
+            continue
+        r0 = fp.unit_reject
+        if any(True for i, k_, n_ in fp.loops if i < r0):
+            continue            # a frame loop goes on with the remainder (R1)
+        n += 1
+        after = [(i, k_) for i, k_ in fp.shrinks if i > r0]
+        clears = [i for i, k_ in after if k_ == 'clear']
+        ck.ob(rule, f.qn, 'one-frame-per-call framer: skipping a foreign frame leaves nothing buffered', bool(clears) or not after,
+              detail='single-shot-skip-keeps-remainder', loc=cx.floc(f, fp.path.ev[r0].node),
+              message='%s framer processes one frame per call, and after skipping a frame for a unit it does not serve it only advances past that frame: what arrived '
+                      'behind it in the same read stays in the buffer unprocessed until the NEXT read, so from then on every request is handled one read late%s' % (kind, why))
+    return n
+
+
 def r2_incomplete(ck, cx, kind, cls, f, fps):
     n = 0
     for fp in fps:
@@ -323,6 +346,7 @@ def run(ck, tier):
         ck.saw('framers', kind)
         npaths += len(fps)
         ck.guard(r1_loop, ck, cx, kind, cls, f, fps)
+        ck.guard(r14_single_shot_skip_keeps_nothing, ck, cx, kind, cls, f, fps, 'R1')
         nabs += ck.guard(r2_incomplete, ck, cx, kind, cls, f, fps) or 0
         ck.guard(r3_header, ck, cx, kind, cls)
         ck.guard(r4_escape, ck, cx, kind, cls, f, fps)
